@@ -243,6 +243,11 @@ func Font(r *rand.Rand, o Opts) (*sfnt.Font, *Info) {
 				}
 			}
 			f.CMapTable[cmap.Key{PlatformID: 3, EncodingID: 1}] = m4.Encode(0)
+			if r.IntN(2) == 0 {
+				// the common layout (0,3)=BMP, (3,1)=same bytes, (3,10)=full:
+				// a shared subtable followed, in key order, by a distinct one
+				f.CMapTable[cmap.Key{PlatformID: 0, EncodingID: 3}] = m4.Encode(0)
+			}
 		}
 	}
 
